@@ -14,11 +14,12 @@ import z3
 DEFAULT_WIDTH = 72
 
 
-class Unsupported(Exception):
-    """Construct outside the modelled fragment -> inconclusive, never an alarm."""
+class Unsupported(BaseException):
+    """Construct outside the modelled fragment -> inconclusive, never an alarm.
+    (BaseException so that `except Exception` in harnesses / the code under test cannot swallow it.)"""
 
 
-class Inconclusive(Exception):
+class Inconclusive(BaseException):
     """Budget exhausted / solver unknown."""
 
 
@@ -887,6 +888,8 @@ class Context:
         self.extra_model_vars = {}
         self.global_conds = []
         self.logic = "QF_BV"
+        self.unknown_is_feasible = False
+        self.feas_timeout_ms = None
 
     # ---- inputs
     def _declare(self, name, var, kind, lo, hi):
@@ -949,6 +952,16 @@ class Context:
         self.solver.add(e)
         self.global_conds.append(e)
 
+    def upgrade_solver(self):
+        """switch the feasibility solver from the QF_BV core to the general one (floats/reals appear)."""
+        if self.logic == "QF_BV":
+            old = self.solver
+            self.solver = z3.Solver()
+            self.solver.set("timeout", self.feas_timeout_ms or self.query_timeout_ms)
+            for a in old.assertions():
+                self.solver.add(a)
+            self.logic = None
+
     def globally_infeasible(self, e):
         """True if `e` contradicts the input validity predicates alone (independent of the path)."""
         s = z3.SolverFor("QF_BV") if self.logic == "QF_BV" else z3.Solver()
@@ -980,7 +993,7 @@ class Context:
             self.stats.feas_time += time.time() - t
             if r == z3.unsat:
                 raise PathAbort()
-            if r == z3.unknown:
+            if r == z3.unknown and not self.unknown_is_feasible:
                 raise Inconclusive("solver unknown on assumption")
             self.solver.add(e)
         fr.conds.append(e)
@@ -1002,6 +1015,11 @@ class Context:
         self.solver.pop()
         self.stats.feas_time += time.time() - t
         if r == z3.unknown:
+            if self.unknown_is_feasible:
+                # over-approximate the path set: sound for proving, a model found on such a path still
+                # has to satisfy the full path condition in the final query and to replay
+                self.stats.feas_unknown = getattr(self.stats, "feas_unknown", 0) + 1
+                return True
             raise Inconclusive("solver unknown on branch feasibility")
         return r == z3.sat
 
@@ -1067,7 +1085,7 @@ class Context:
 
     # ---- obligations
     def _new_solver(self):
-        if self.tactic:
+        if self.tactic and self.logic == "QF_BV":
             s = z3.Tactic(self.tactic).solver()
         else:
             s = z3.Solver()
@@ -1239,7 +1257,8 @@ class Result:
 
 def explore(harness, params=None, width=DEFAULT_WIDTH, max_paths=200000, max_decisions=200000,
             query_timeout_ms=120000, seed=0, pins=None, allow_mul=False, tactic=None,
-            stop_on_cex=4, time_budget=None, setup=None, logic="QF_BV"):
+            stop_on_cex=4, time_budget=None, setup=None, logic="QF_BV", unknown_is_feasible=False,
+            feas_timeout_ms=None):
     """Run `harness(ctx, **params)` once per feasible decision sequence (DFS)."""
     global _CTX
     params = params or {}
@@ -1265,7 +1284,9 @@ def explore(harness, params=None, width=DEFAULT_WIDTH, max_paths=200000, max_dec
             fr = Frame(prefix, True)
             c.frames = [fr]
             c.solver = z3.SolverFor(logic) if logic else z3.Solver()
-            c.solver.set("timeout", query_timeout_ms)
+            c.solver.set("timeout", feas_timeout_ms or query_timeout_ms)
+            c.unknown_is_feasible = unknown_is_feasible
+            c.feas_timeout_ms = feas_timeout_ms
             c.inputs = {}
             c.input_order = []
             c.global_conds = []
@@ -1284,6 +1305,11 @@ def explore(harness, params=None, width=DEFAULT_WIDTH, max_paths=200000, max_dec
                         res.observations.append(_eval_observed(c, c.solver.model()))
             except PathAbort:
                 c.stats.aborted_paths += 1
+            except Exception as ex:
+                # the code under test raised where the harness did not expect it: a counterexample candidate
+                import traceback as _tb
+                c.fail("no-unexpected-exception", info={"exc": "%s: %s" % (type(ex).__name__, ex),
+                                                        "where": _tb.format_exc()[-600:]})
             except Inconclusive as ex:
                 c.stats.inconclusive.append("inconclusive: %s" % ex)
             except Unsupported as ex:
